@@ -654,8 +654,9 @@ class Assembler:
 
     # -- statement range
     def _range(self, blk, tpl_path):
-        excl = re.search(r"\s+from\s+after\s+/", blk.arg) is not None   # `from after /re/`: the range starts on the NEXT line
-        mm = re.match(r"(.*?)\s+from\s+(?:after\s+)?/(.*?)/\s+to\s+/(.*?)/\s*(inclusive)?\s*$", blk.arg)
+        excl = re.search(r"\s+from\s+after\s+(?:first\s+)?/", blk.arg) is not None   # `from after /re/`: the range starts on the NEXT line
+        first = re.search(r"\s+from\s+(?:after\s+)?first\s+/", blk.arg) is not None   # `from [after] first /re/`: the FIRST matching line
+        mm = re.match(r"(.*?)\s+from\s+(?:after\s+)?(?:first\s+)?/(.*?)/\s+to\s+/(.*?)/\s*(inclusive)?\s*$", blk.arg)
         if not mm:
             raise AssembleError("bad range directive: %r" % blk.arg)
         rel, s, it = self.locate(mm.group(1))
@@ -665,6 +666,8 @@ class Assembler:
         first_line = s.line(it.body_open)
         blines = body.split("\n")
         a_hits = [i for i, l in enumerate(blines) if re.search(mm.group(2), l)]
+        if first and a_hits:
+            a_hits = a_hits[:1]
         if len(a_hits) != 1:
             raise AssembleError("lost anchor: range start /%s/ matched %d lines in %s" % (mm.group(2), len(a_hits), mm.group(1)))
         a = a_hits[0] + (1 if excl else 0)
